@@ -140,6 +140,10 @@ func (w *c13World) checkLookups() {
 		if err != nil || b2 == nil || b2.Header.Height != uint32(h) {
 			w.ctx.Failf("GetBlockByHash(height %d): %v", h, err)
 		}
+		// the stored block is the committed block byte for byte (hashes alone ignore the signatures)
+		if gb, wb := b.ToArray(), mb.ToArray(); !bytes.Equal(gb, wb) {
+			w.ctx.Failf("GetBlockByHeight(%d) returns a block whose encoding (%d bytes) differs from the committed block (%d bytes)", h, len(gb), len(wb))
+		}
 		if len(b.Transactions) != len(mb.Transactions) {
 			w.ctx.Failf("block %d: %d transactions stored, %d committed", h, len(b.Transactions), len(mb.Transactions))
 		}
